@@ -16,6 +16,11 @@ use std::time::{Duration, Instant};
 /// ops: `t` wait_token_timeout(0), `a` async_wait_token polled once, `w` wait_token (blocking), `o` drop oldest live token,
 /// `y` drop youngest, `n` make and drop a stand-alone Token::new().  Runs in a worker thread; a blocked op ends the case with `HANG`.
 pub fn case_tokens(ctx: &mut Ctx, size: &str, ops: &str) {
+    static HANGS: std::sync::atomic::AtomicUsize = std::sync::atomic::AtomicUsize::new(0);
+    // every hang costs its detection time: after a few, blocking takes are reported without running them
+    if HANGS.load(std::sync::atomic::Ordering::SeqCst) >= 8 && ops.contains('w') {
+        return;
+    }
     let sz: usize = size.parse().unwrap();
     let ops_o = ops.to_string();
     let (tx, rx) = std::sync::mpsc::channel::<String>();
@@ -49,7 +54,7 @@ pub fn case_tokens(ctx: &mut Ctx, size: &str, ops: &str) {
         });
         let _ = tx.send(r.unwrap_or_else(|_| "PANIC".to_string()));
     });
-    let obs = rx.recv_timeout(Duration::from_secs(3)).unwrap_or_else(|_| "HANG".to_string());
+    let obs = rx.recv_timeout(Duration::from_secs(2)).unwrap_or_else(|_| { HANGS.fetch_add(1, std::sync::atomic::Ordering::SeqCst); "HANG".to_string() });
     ctx.emit("c12t", &[size, ops], &obs);
 }
 
